@@ -127,7 +127,18 @@ def check(ctx, doc, ops, cls):
         opsc = [dict(op, value=_gen.exotic_mutable(op["value"], ctx.rng)) if "value" in op else op for op in opsc]
         case["containers"] = "dict/list subclasses"
         ctx.count("documents_in_dict_and_list_subclasses")
-    o = impl.call(jsonpath.patch.apply, opsc, d)
+    carrier = "list"
+    if getattr(ctx, "_force_carrier", None) or ctx.rng.random() < 0.12:
+        # the operations handed over in another iterable: a tuple, or a one-shot one (what a generator, map() or a lazy
+        # line reader gives) - the documented argument type is any iterable of operation objects
+        carrier = getattr(ctx, "_force_carrier", None) or ctx.rng.choice(["tuple", "iter", "generator", "map"])
+        case["operations_given_as"] = carrier
+        ctx.count("operation_lists_given_as_other_iterables")
+    given = {"list": lambda: opsc, "tuple": lambda: tuple(opsc), "iter": lambda: iter(opsc), "generator": lambda: (op_ for op_ in opsc), "map": lambda: map(dict, opsc)}[carrier]()
+    if carrier != "list" and ctx.rng.random() < 0.5:
+        o = impl.call(lambda: jsonpath.JSONPatch(given).apply(d))
+    else:
+        o = impl.call(jsonpath.patch.apply, given, d)
     opn = "+".join(op["op"] for op in ops) if len(ops) == 1 else "sequence"
     if fail is not None:
         if o.ok:
@@ -525,6 +536,11 @@ def replay(case, ctx):
         check_builder(ctx, case["doc"], case["ops"], case["pointer_class"])
         return
     ctx._force_builder = bool(case.get("builder_from_parts"))
+    if case.get("operations_given_as"):
+        ctx._force_carrier = case["operations_given_as"]
+        for _ in range(4):
+            check(ctx, case["doc"], case["ops"], case.get("class", "replay"))
+        return
     if case.get("containers"):
         ctx._force_exotic = True
         for _ in range(12):
